@@ -170,6 +170,7 @@ func walk(m protoreflect.Message, path []*validate.FieldPathElement, vs *[]*Viol
 	if depth > 64 {
 		return
 	}
+	messageRules(m, path, vs)
 	fds := m.Descriptor().Fields()
 	for i := 0; i < fds.Len(); i++ {
 		fd := fds.Get(i)
@@ -212,6 +213,76 @@ func walk(m protoreflect.Message, path []*validate.FieldPathElement, vs *[]*Viol
 		case fd.Kind() == protoreflect.MessageKind:
 			walk(m.Get(fd).Message(), here, vs, depth+1)
 		}
+	}
+}
+
+// messageRules evaluates (buf.validate.message).cel entries of the one form this stand-in knows,
+// "this.<a> <op> this.<b>" over two integer fields. A violated rule of the message as a whole names no field:
+// its path is that of the enclosing field (empty for the validated message itself), as in the real library.
+func messageRules(m protoreflect.Message, path []*validate.FieldPathElement, vs *[]*Violation) {
+	mo, ok := m.Descriptor().Options().(*descriptorpb.MessageOptions)
+	if !ok || mo == nil || !proto.HasExtension(mo, validate.E_Message) {
+		return
+	}
+	mr, _ := proto.GetExtension(mo, validate.E_Message).(*validate.MessageRules)
+	for _, r := range mr.GetCel() {
+		parts := strings.Fields(r.GetExpression())
+		if len(parts) != 3 || !strings.HasPrefix(parts[0], "this.") || !strings.HasPrefix(parts[2], "this.") {
+			continue
+		}
+		fa := m.Descriptor().Fields().ByName(protoreflect.Name(strings.TrimPrefix(parts[0], "this.")))
+		fb := m.Descriptor().Fields().ByName(protoreflect.Name(strings.TrimPrefix(parts[2], "this.")))
+		if fa == nil || fb == nil || fa.Kind() != fb.Kind() || fa.Cardinality() == protoreflect.Repeated || fb.Cardinality() == protoreflect.Repeated {
+			continue
+		}
+		cmp := 0
+		switch fa.Kind() {
+		case protoreflect.Int32Kind, protoreflect.Sint32Kind, protoreflect.Sfixed32Kind, protoreflect.Int64Kind, protoreflect.Sint64Kind, protoreflect.Sfixed64Kind:
+			a, b := m.Get(fa).Int(), m.Get(fb).Int()
+			switch {
+			case a < b:
+				cmp = -1
+			case a > b:
+				cmp = 1
+			}
+		case protoreflect.Uint32Kind, protoreflect.Fixed32Kind, protoreflect.Uint64Kind, protoreflect.Fixed64Kind:
+			a, b := m.Get(fa).Uint(), m.Get(fb).Uint()
+			switch {
+			case a < b:
+				cmp = -1
+			case a > b:
+				cmp = 1
+			}
+		default:
+			continue
+		}
+		holds := true
+		switch parts[1] {
+		case "<=":
+			holds = cmp <= 0
+		case ">=":
+			holds = cmp >= 0
+		case "<":
+			holds = cmp < 0
+		case ">":
+			holds = cmp > 0
+		case "==":
+			holds = cmp == 0
+		case "!=":
+			holds = cmp != 0
+		default:
+			continue
+		}
+		if holds {
+			continue
+		}
+		v := &Violation{Proto: &validate.Violation{RuleId: proto.String(r.GetId()), Message: proto.String(r.GetMessage())}}
+		if len(path) > 0 {
+			p := make([]*validate.FieldPathElement, len(path))
+			copy(p, path)
+			v.Proto.Field = &validate.FieldPath{Elements: p}
+		}
+		*vs = append(*vs, v)
 	}
 }
 
